@@ -32,7 +32,7 @@ class WriterFacts:
         it = Interp(repo)
         it.heap[A(ARGS, 'twopl')] = C(twopl)
         try:
-            self.effs, _ = it.run(self.gi, {'args': ARGS})
+            self.effs, _ = it.run(self.gi, {[p_ for p_ in self.gi.params if p_ != 'self'][0]: ARGS})      # the parsed namespace, whatever the parameter is called
         except Unknown as u:
             raise AnalysisError('%s.generate_instances outside the interpreted fragment: %s' % (cls, u))
         self.it = it
